@@ -127,6 +127,9 @@ pub fn drive(args: &[String]) -> i32 {
     let sweep_entries = arg_u64(args, "--sweep", 1);
     let limit_ms = arg_u64(args, "--limit-ms", 2000);
     let only = arg_val(args, "--only");
+    let only_idx: Option<Vec<usize>> = arg_val(args, "--only-idx").map(|s| s.split(',').filter_map(|x| x.parse().ok()).collect());
+    let sem = arg_val(args, "--sem").unwrap_or("checked".into());
+    let mut panicked: std::collections::BTreeSet<usize> = Default::default();
     let outp = arg_val(args, "--out").unwrap();
     let reg = registry();
     let lat = lattice();
@@ -136,9 +139,11 @@ pub fn drive(args: &[String]) -> i32 {
     let mut aborted = false;
     for (ei, e) in reg.iter().enumerate() {
         if let Some(o) = &only { if !e.label().contains(o.as_str()) { continue; } }
+        if let Some(ix) = &only_idx { if !ix.contains(&ei) { continue; } }
         // every timed-out call leaves a spinning thread behind: once hangs are established, stop driving
         if ntimeouts >= 12 { aborted = true; break; }
-        let base = base_event(e, ei);
+        let mut base = base_event(e, ei);
+        base["sem"] = json!(sem);
         // adversarial schedules
         let mut entry_timeouts = 0u64;
         for s in 0..nseeds {
@@ -161,7 +166,7 @@ pub fn drive(args: &[String]) -> i32 {
                             ev["wpos"] = json!(if e.family.starts_with("Weighted") { weight_positive(e, o.bits[0]) } else { true });
                             ev["show"] = json!(o.bits.iter().map(|&b| match o.kind { "f32" => format!("{:e}", f32::from_bits(b as u32)), "f64" => format!("{:e}", f64::from_bits(b)), _ => format!("{}", b) }).collect::<Vec<_>>());
                         }
-                        Err(p) => { if p == "Timeout" { ntimeouts += 1; entry_timeouts += 1; }
+                        Err(p) => { if p == "Timeout" { ntimeouts += 1; entry_timeouts += 1; } else { panicked.insert(ei); }
                             ev["res"] = json!(if p == "Timeout" { p.clone() } else { format!("Panic: {}", p) });
                             ev["out"] = json!([]); ev["ocls"] = json!([]); ev["integral"] = json!(true); ev["wpos"] = json!(true); ev["show"] = json!([]); }
                     }
@@ -208,7 +213,7 @@ pub fn drive(args: &[String]) -> i32 {
                         if e.family.starts_with("Weighted") && !weight_positive(e, b) { bzerow += 1; }
                     }
                 }
-                Err(p) => { bad += 1; if first_bad.is_none() { first_bad = Some(p.split(" @ ").next().unwrap_or("").to_string()); } }
+                Err(p) => { bad += 1; if p != "Timeout" { panicked.insert(ei); } if first_bad.is_none() { first_bad = Some(p.split(" @ ").next().unwrap_or("").to_string()); } }
             }
         }
         let mut ev = base.clone();
@@ -224,7 +229,7 @@ pub fn drive(args: &[String]) -> i32 {
     // 2^24 sweeps of the first word for f32 entries (in parallel, aggregated per entry)
     let mut sweeps = 0u64;
     if sweep_entries > 0 && !aborted {
-        let idx: Vec<usize> = reg.iter().enumerate().filter(|(_, e)| e.ft == "f32" && only.as_ref().map(|o| e.label().contains(o.as_str())).unwrap_or(true)
+        let idx: Vec<usize> = reg.iter().enumerate().filter(|(i, e)| e.ft == "f32" && only_idx.as_ref().map(|ix| ix.contains(i)).unwrap_or(true) && only.as_ref().map(|o| e.label().contains(o.as_str())).unwrap_or(true)
             && ["Cauchy", "Pareto", "Weibull", "Gumbel", "Frechet", "Triangular", "Exp", "Exp1", "Normal", "StandardNormal", "LogNormal", "Zipf", "Zeta", "WeightedTreeIndex", "WeightedAliasIndex", "Beta", "Gamma", "Pert", "UnitDisc", "SkewNormal", "InverseGaussian"].contains(&e.family)).map(|(i, _)| i).collect();
         let idx: Vec<usize> = idx.into_iter().filter(|i| sweep_entries >= 2 || i % 3 == (seed % 3) as usize).collect();
         let nthreads = 12usize;
@@ -280,6 +285,7 @@ pub fn drive(args: &[String]) -> i32 {
         for h in handles { for l in h.join().unwrap() { writeln!(f, "{}", l).unwrap(); nev += 1; sweeps += 1; } }
     }
     f.flush().unwrap();
-    println!("{}", json!({"tool": "sup-drive", "events": nev, "calls": ncalls, "timeouts": ntimeouts, "entries": reg.len(), "lattice_words": lat.len(), "sweeps_2p24": sweeps, "aborted_after_hangs": aborted}));
+    println!("{}", json!({"tool": "sup-drive", "events": nev, "calls": ncalls, "timeouts": ntimeouts, "entries": reg.len(), "lattice_words": lat.len(), "sweeps_2p24": sweeps, "aborted_after_hangs": aborted,
+        "sem": sem, "panicked_entries": panicked.iter().collect::<Vec<_>>()}));
     std::process::exit(0);
 }
